@@ -1280,6 +1280,71 @@ func c11CloseHandleFacts(r *Repo, w *Lean, kinds []c11Kind) error {
 	w.Line("/-- Kafka kinds: in `Handle` every `….Input() <- msg` is preceded, in its block, by a read-lock and by")
 	w.Line("`if recv.F { return … }`, where `Close` assigns `recv.F = true` between `Lock()` and `Unlock()` before `close(recv.done)`. -/")
 	w.Line("def kafkaSendGuarded : List (String × Bool) := [%s]", strings.Join(guarded, ", "))
+	return c11ValidatorFreshCache(r, w)
+}
+
+// c11ValidatorFreshCache: every assignment to `<recv>.basicAuth` in the methods of Validator is a call of
+// NewBasicAuthValidator(…) none of whose arguments mentions a parameter of the enclosing method (so
+// nothing of a previous generation can flow into the new generation's user cache); Init / Inherit /
+// reload are where the assignments are expected.
+func c11ValidatorFreshCache(r *Repo, w *Lean) error {
+	const rel = "pkg/filters/validator/validator.go"
+	ms, err := r.Methods(rel, "Validator")
+	if err != nil {
+		return err
+	}
+	var bad []string
+	n := 0
+	for _, fd := range ms {
+		if fd.Body == nil || len(fd.Recv.List[0].Names) != 1 {
+			continue
+		}
+		recv := fd.Recv.List[0].Names[0].Name
+		params := map[string]bool{}
+		if fd.Type.Params != nil {
+			for _, f := range fd.Type.Params.List {
+				for _, nm := range f.Names {
+					params[nm.Name] = true
+				}
+			}
+		}
+		ast.Inspect(fd.Body, func(x ast.Node) bool {
+			as, ok := x.(*ast.AssignStmt)
+			if !ok {
+				return true
+			}
+			for i, l := range as.Lhs {
+				se, ok := l.(*ast.SelectorExpr)
+				if !ok || se.Sel.Name != "basicAuth" || r.Src(se.X) != recv || i >= len(as.Rhs) {
+					continue
+				}
+				n++
+				rhs := as.Rhs[i]
+				ce, isCall := rhs.(*ast.CallExpr)
+				fresh := isCall && r.Src(ce.Fun) == "NewBasicAuthValidator"
+				if fresh {
+					ast.Inspect(ce, func(y ast.Node) bool {
+						if id, ok := y.(*ast.Ident); ok && params[id.Name] {
+							fresh = false
+						}
+						return true
+					})
+				}
+				if !fresh {
+					bad = append(bad, fd.Name.Name+": "+r.Src(as))
+				}
+			}
+			return true
+		})
+	}
+	if n == 0 {
+		return fmt.Errorf("%s: no assignment to the Validator's basicAuth found", rel)
+	}
+	sort.Strings(bad)
+	w.Line("/-- assignments to `<recv>.basicAuth` in Validator's methods (%d in all) that are NOT a fresh", n)
+	w.Line("`NewBasicAuthValidator(…)` built without any parameter of the enclosing method. -/")
+	w.Line("def validatorBasicAuthNotFresh : List String := %s", StrList(bad))
+	w.Line("def validatorInheritFreshCache : Bool := %s", Bool(len(bad) == 0))
 	return nil
 }
 
